@@ -111,6 +111,14 @@ class InjectedStop(StopIteration):
     pass
 
 
+class InjectedValueError(ValueError):
+    """A user's ValueError: not the library's own "empty sequence" / "strict" one."""
+
+
+class InjectedLookupError(KeyError):
+    pass
+
+
 class StrSub(str):
     pass
 
@@ -371,7 +379,8 @@ def execute(case, L, *, sync=False, flav=None, susp=0, fault_kind="exc", cancel_
     rec.fault = fault_plan(case)
     if rec.fault is not None:
         rec.fault_exc = {"exc": InjectedError, "typeerr": InjectedTypeError, "cancel": Cancelled,
-                         "stopasync": InjectedStopAsync, "stopiter": InjectedStop}[fault_kind]("injected")
+                         "stopasync": InjectedStopAsync, "stopiter": InjectedStop, "valueerr": InjectedValueError,
+                         "lookuperr": InjectedLookupError}[fault_kind]("injected")
     src_flav = flav["src"]
     S, H = [], []
     list_snap, list_edited = {}, set()     # the caller's lists as handed over / those the harness edited itself
